@@ -591,9 +591,21 @@ def register_timing_tasks(broker: ScriptedBroker, tr: Trace, sc: Dict[str, Any])
 
     dyntask.__module__ = __name__
 
+    # a task name whose implementation is replaced WHILE the worker runs (hot reload, a plugin registering its own version): first a
+    # sync function, later an async one under the same name - every message runs the version registered when it is processed
+    def retask_v1(i: int) -> Any:
+        return stask(i)
+
+    async def retask_v2(i: int) -> Any:
+        return await atask(i)
+
+    retask_v1.__module__ = retask_v2.__module__ = __name__
+    broker.register_task(retask_v1, task_name="retask")
+
     def _register_dyn() -> None:
         tr.add("registered")
         broker.register_task(dyntask, task_name="dyntask")
+        broker.register_task(retask_v2, task_name="retask")
 
     broker._vt_register_dyn = _register_dyn  # type: ignore[attr-defined]
 
@@ -616,7 +628,7 @@ def build_script(broker: ScriptedBroker, sc: Dict[str, Any]) -> List[Any]:
     script = []
     for i, sp in enumerate(sc["msgs"]):
         kind = sp["kind"]
-        tname = sp.get("task") or {"sync": "stask", "shared": "shtask", "late": "latask", "dyn": "dyntask", "plaincls": "cltask", "swapped": "swtask"}.get(kind, "atask")
+        tname = sp.get("task") or {"sync": "stask", "shared": "shtask", "late": "latask", "dyn": "dyntask", "plaincls": "cltask", "swapped": "swtask", "retask": "retask"}.get(kind, "atask")
         labels = dict(sp.get("labels") or {})
         late = dict(sp.get("late_labels") or {})
         if sp.get("timeout") is not None:
@@ -825,7 +837,7 @@ def per_message(trace: List[List[Any]]) -> Dict[Any, List[Any]]:
 
 
 def is_good(sp: Dict[str, Any]) -> bool:
-    return sp["kind"] in ("async", "sync", "shared", "late", "dyn", "plaincls", "swapped")
+    return sp["kind"] in ("async", "sync", "shared", "late", "dyn", "plaincls", "swapped", "retask")
 
 
 def brief_trace(trace: List[List[Any]], limit: int = 60) -> List[Any]:
